@@ -182,7 +182,10 @@ func (d *Decoder) decodeNALUs(pkt *rtp.Packet) ([][]byte, error) {
 				errSize, h265.MaxAccessUnitSize)
 		}
 
-		d.fragments = append(d.fragments, pkt.Payload[3:])
+		// fragments without data carry nothing: do not keep them
+		if len(pkt.Payload[3:]) != 0 {
+			d.fragments = append(d.fragments, pkt.Payload[3:])
+		}
 		d.fragmentNextSeqNum++
 
 		if end != 1 {
